@@ -18,6 +18,10 @@ CLAIMED = {
    text="Totality of the byte-level decoders: every byte string of length 0..7 (quick) / 0..10 (thorough) with every tag byte into RawMessage (DecoderReader and plain reader), StringifiedMessage.UnmarshalNBT, RawMessage.String and dynbt.Value: no reachable Go panic on any path (every index, slice, make, nil, division site is a solver query), no loop without consuming input (instruction budget), and - classified by the independent reference - a strict prefix of a value, a negative declared length and an unknown tag id all yield an error. Nothing is asserted for inputs the reference cannot classify.",
    note="typed targets (structs, maps, any) need reflect and are outside; decimal formatting of |v| >= 10^5 and float formatting are placeholders; allocation size is not a panic.",
    ref="6 C03"),
+ "C04": dict(
+   text="Text -> binary: every text of 0..5 (quick) / 0..7 (thorough) bytes over all 256 byte values through StringifiedMessage.MarshalNBT (the real scanner, parseLiteral, strconv.ParseInt executed symbolically): no reachable panic, and whenever the parser accepts, the bytes produced are exactly one complete NBT value (independent grammar reference) of the tag type TagType() announces - never a truncated or mistyped document with a nil error. Agreement of the content with an independent SNBT reading, the 'malformed => error' clause and the binary->text->binary round trip are not covered yet.",
+   note="ParseFloat is a stub (any value, no error): float literals are checked for tag type and width only; texts longer than the bound and the nesting limit are outside.",
+   ref="6 C04"),
  "C05": dict(
    text="All 2^32 VarInt and 2^64 VarLong values (full width, no value bound): encoder bytes/count/Len equal a textbook LEB128 reference, decode(encode(v))==v with exact consumption through both reader paths, and every 12-byte buffer is decoded with at most 5/10 bytes consumed and an error on longer continuation runs. Decided per path by z3; loops unwound with an unwinding check.",
    note="64-bit target; go/ssa + symgo instruction semantics (validated by native replay of witnesses); z3 soundness; bytes.Buffer/bytes.Reader/io.ReadFull executed from their real source.",
